@@ -149,7 +149,7 @@ pub fn c03_ops_owned_vec() {
     bytes_ops::<OwnedRegion<u8>, VecPairs>();
 }
 
-// @h prop=C03 tier=quick kind=proof inst="FlatStack<ConsecutiveIndexPairs<OwnedRegion<u8>>, IndexOptimized>" bounds="3 values of 2, 0, 3 symbolic bytes; copy x3 / extend / from_iter; reserve; clone + copy; clear + copy" desc="as c03_ops_owned_vec with the stride-optimised index container over dense indices"
+// @h memw=7 prop=C03 tier=quick kind=proof inst="FlatStack<ConsecutiveIndexPairs<OwnedRegion<u8>>, IndexOptimized>" bounds="3 values of 2, 0, 3 symbolic bytes; copy x3 / extend / from_iter; reserve; clone + copy; clear + copy" desc="as c03_ops_owned_vec with the stride-optimised index container over dense indices"
 #[cfg_attr(kani, kani::proof, kani::unwind(6))]
 pub fn c03_ops_cip_opt() {
     bytes_ops::<Cip, OptDense>();
